@@ -852,8 +852,8 @@ func (e *Enc) wfHeapTerm(t string, ty types.Type) {
 	e.wfSeen[t] = true
 	switch ty.Underlying().(type) {
 	case *types.Slice:
-		e.assert(fmt.Sprintf("(and (>= (slen %s) 0) (>= (sbase %s) 0) (=> (= (sbase %s) 0) (= (slen %s) 0)))", t, t, t, t))
+		e.fact(fmt.Sprintf("(and (>= (slen %s) 0) (>= (sbase %s) 0) (=> (= (sbase %s) 0) (= (slen %s) 0)))", t, t, t, t))
 	case *types.Interface:
-		e.assert(fmt.Sprintf("(wfVal %s)", t))
+		e.fact(fmt.Sprintf("(wfVal %s)", t))
 	}
 }
